@@ -452,6 +452,7 @@ fn run_case(c: &Case) -> Outcome {
         write_max: None,
         repeat: c.repeat.clone().map(Arc::new),
         repeat_cap: REPEAT_CAP,
+        write_fail_at: None,
     };
     let world = World::install(false, move |i, _| {
         if i == 0 {
